@@ -321,10 +321,10 @@ fn out32(o: &[u8; 40]) -> [u8; 32] {
 
 pub(crate) fn stub_x(u: &NormalizedString, p: &NormalizedString, salt: &Salt) -> Sha1Hash {
     verif_oracle::bump(10);
-    let (ub, _) = name_bytes(u);
-    let (pb, _) = name_bytes(p);
+    let (ub, ul) = name_bytes(u);
+    let (pb, pl) = name_bytes(p);
     // fixed-width encoding: 16 zero-padded bytes + length for each name
-    let o = verif_oracle::uf(verif_oracle::USER + 10, &[salt.as_le_bytes(), &ub, &[u.as_ref().len() as u8], &pb, &[p.as_ref().len() as u8]]);
+    let o = verif_oracle::uf(verif_oracle::USER + 10, &[salt.as_le_bytes(), &ub, &[ul as u8], &pb, &[pl as u8]]);
     Sha1Hash::from_le_bytes(out20(&o))
 }
 pub(crate) fn stub_u(a: &PublicKey, b: &PublicKey) -> Sha1Hash {
@@ -349,8 +349,8 @@ pub(crate) fn stub_session_key(a: &PublicKey, b: &PublicKey, v: &Verifier, pk: &
 }
 pub(crate) fn stub_client_proof(name: &NormalizedString, k: &SessionKey, a: &PublicKey, b: &PublicKey, salt: &Salt) -> Proof {
     verif_oracle::bump(15);
-    let (nb, _) = name_bytes(name);
-    let o = verif_oracle::uf(verif_oracle::USER + 15, &[k.as_le_bytes(), a.as_le_bytes(), b.as_le_bytes(), salt.as_le_bytes(), &nb, &[name.as_ref().len() as u8]]);
+    let (nb, nl) = name_bytes(name);
+    let o = verif_oracle::uf(verif_oracle::USER + 15, &[k.as_le_bytes(), a.as_le_bytes(), b.as_le_bytes(), salt.as_le_bytes(), &nb, &[nl as u8]]);
     Proof::from_le_bytes(out20(&o))
 }
 pub(crate) fn stub_server_proof(a: &PublicKey, m1: &Proof, k: &SessionKey) -> Proof {
@@ -360,9 +360,9 @@ pub(crate) fn stub_server_proof(a: &PublicKey, m1: &Proof, k: &SessionKey) -> Pr
 }
 pub(crate) fn stub_verifier(u: &NormalizedString, p: &NormalizedString, salt: &Salt) -> [u8; 32] {
     verif_oracle::bump(8);
-    let (ub, _) = name_bytes(u);
-    let (pb, _) = name_bytes(p);
-    let o = verif_oracle::uf(verif_oracle::USER + 8, &[salt.as_le_bytes(), &ub, &[u.as_ref().len() as u8], &pb, &[p.as_ref().len() as u8]]);
+    let (ub, ul) = name_bytes(u);
+    let (pb, pl) = name_bytes(p);
+    let o = verif_oracle::uf(verif_oracle::USER + 8, &[salt.as_le_bytes(), &ub, &[ul as u8], &pb, &[pl as u8]]);
     out32(&o)
 }
 /// B as an uninterpreted function of (v, b); the documented "generated key is invalid" case is excluded
